@@ -1,7 +1,6 @@
 SPECIFICATION Spec
 CONSTANTS
-  MaxWeight = 7
-  MaxOps = 5
+  MaxWeight = 5
   Rich = FALSE
 VIEW View
 CONSTRAINT Bound
